@@ -9,7 +9,7 @@
     only on a connection that is not blocked, blocking pops are not sent inside MULTI, QUIT is a
     disconnect.  A server whose event loop has ended ([b_crashed]) takes no step. *)
 From Ferrous Require Import Base.Bytes Generated Model.Resp Model.Types Model.Strings Model.Lists
-  Model.Server Model.Blocking Spec.BlockingSpec Proofs.BlockingFacts Proofs.BlockingCons.
+  Model.Server Model.Blocking Spec.BlockingSpec Proofs.BlockingFacts Proofs.BlockingCons Proofs.BlockingStrand.
 Open Scope Z_scope.
 
 (** ---- registry / connection-state agreement ---- *)
@@ -151,6 +151,20 @@ Theorem c13_history_reachable : forall evs st P R, reach_g st P R -> all_ok_cons
   reach_g (fst (fst (gtrace st P R evs))) (snd (fst (gtrace st P R evs))) (snd (gtrace st P R evs)).
 Proof. exact gtrace_reach. Qed.
 
+(** ---- no stranding: the safety half of "served promptly" (partial: single-key blocking pops) ----
+    Full statement (refuted - classes reregister-no-recheck for multi-key calls, blocking-in-exec,
+    script-push-no-notify): in every reachable state a key that has a waiter holds at most as many
+    elements as wake-ups are under way for it.  Proved for all histories of list-catalogue
+    requests (as for conservation) in which every BLPOP/BRPOP names ONE key. *)
+Theorem c13_no_stranding_partial : forall st, reach_sk st -> no_strand st.
+Proof. exact no_stranding. Qed.
+(** in particular, once the wake-up queue has drained nobody is blocked on a key that holds an element *)
+Theorem c13_no_stranding_drained_partial : forall st, reach_sk st -> b_wake (snd st) = [] ->
+  forall db k, 0 <= db -> reg_get (b_reg (snd st)) (db, k) <> [] -> list_at (fst st) db k = [].
+Proof. exact no_stranding_drained. Qed.
+Theorem c13_single_key_history_reachable : forall evs st, reach_sk st -> all_ok_sk st evs = true -> reach_sk (run st evs).
+Proof. exact run_reach_sk. Qed.
+
 (** ---- non-vacuity: a history inside every hypothesis ---- *)
 Example c13_good_history :
   all_ok sys0 w_good = true /\
@@ -206,4 +220,14 @@ Example c13_progress_refuted_reregister_no_recheck :
   all_ok_cons sys0 w_recheck = true /\
   let st := run sys0 w_recheck in
   list_at (fst st) 0 (bs "r") = [bs "b"] /\ waiting st 0 (bs "r") = [1] /\ b_wake (snd st) = [] /\ out_to st 1 = [].
+Proof. vm_compute. repeat split; reflexivity. Qed.
+(** non-vacuity of the no-stranding theorem: between the push and the wake-up phase the key holds
+    three elements with two wake-ups under way and nobody left waiting; after it, one element *)
+Example c13_single_key_history :
+  all_ok_sk sys0 w_sk = true /\
+  let st := run sys0 w_sk in
+  list_at (fst st) 0 (bs "q") = [bs "a"; bs "b"; bs "c"] /\ wcount 0 (bs "q") (b_wake (snd st)) = 2 /\ waiting st 0 (bs "q") = [] /\
+  let st' := step st EWakeups in
+  list_at (fst st') 0 (bs "q") = [bs "b"] /\ out_to st' 1 = [FArray [FBulk (bs "q"); FBulk (bs "a")]] /\
+  out_to st' 2 = [FArray [FBulk (bs "q"); FBulk (bs "c")]].
 Proof. vm_compute. repeat split; reflexivity. Qed.
